@@ -659,3 +659,95 @@ Proof.
   - split; intros (e & He); discriminate.
   - split; intros _; eexists; reflexivity.
 Qed.
+
+(* ------------------------------------------------------------------------------------------ *)
+(* duration, first, last *)
+
+Lemma sum_eval_Proper ps : Proper (Qeq ==> Qeq) (sum_eval ps).
+Proof.
+  intros x y H. induction ps as [|p ps IH]; [reflexivity|].
+  cbn [sum_eval fold_right]. fold (sum_eval ps x). fold (sum_eval ps y).
+  rewrite IH, (eval_Proper p x y H). reflexivity.
+Qed.
+
+Lemma hd_values (p : pwl) : hd 0 (values p) = vfirst p.
+Proof. destruct p as [|[t v] p]; reflexivity. Qed.
+
+Lemma last_values (p : pwl) : last (values p) 0 = vlast p.
+Proof.
+  unfold vlast. induction p as [|a p IH]; [reflexivity|].
+  destruct p as [|b p]; [reflexivity|].
+  change (values (a :: b :: p)) with (snd a :: snd b :: values p).
+  rewrite !last_cons2. exact IH.
+Qed.
+
+Lemma last_map_minus d (l : list Q) : l <> [] -> last (map (fun t => t - d) l) 0 == last l 0 - d.
+Proof.
+  induction l as [|a l IH]; [congruence|]. intros _.
+  destruct l as [|b l]; [cbn; reflexivity|].
+  change (map (fun t => t - d) (a :: b :: l)) with ((a - d) :: map (fun t => t - d) (b :: l)).
+  change (map (fun t => t - d) (b :: l)) with ((b - d) :: map (fun t => t - d) l) at 1.
+  rewrite !last_cons2. change ((b - d) :: map (fun t => t - d) l) with (map (fun t => t - d) (b :: l)).
+  apply IH. discriminate.
+Qed.
+
+Lemma make_ext_trap_fields s mg ms p g :
+  make_ext_trap s mg ms p = OK g -> p <> [] /\
+  g_first g = vfirst p /\ g_last g = vlast p /\ g_dur g == tlast p.
+Proof.
+  unfold make_ext_trap. intros H.
+  destruct (forallb (fun t => Qeq_bool t 0) (times p)) eqn:A1; [discriminate|].
+  destruct (existsb _ _); [discriminate|].
+  destruct (negb (on_raster _ _)); [discriminate|].
+  destruct (Qgtb _ _ && _); [discriminate|].
+  destruct (negb (forallb _ _)); [discriminate|].
+  destruct (div_lists _ _); [discriminate|].
+  destruct (Qgtb _ _); [discriminate|]. destruct (Qgtb _ _); [discriminate|].
+  injection H as <-.
+  assert (Hne : p <> []) by (intro E; subst p; discriminate).
+  split; [exact Hne|]. cbn [g_first g_last g_dur eg_first eg_last eg_delay eg_shape_dur].
+  split; [apply hd_values|]. split; [apply last_values|].
+  rewrite last_map_minus by (destruct p; [congruence|discriminate]).
+  rewrite <- tlast_times. ring.
+Qed.
+
+(* extended-trapezoid path: first / last are the sums of the input renderings at the start / end
+   of the result, the result starts at the earliest and ends at the latest corner time of all inputs *)
+Theorem add_ext_first_last_duration s mg ms grads g :
+  add_gradients s mg ms grads = OK (P_ext, g) -> ExtInputsOk s grads ->
+  g_first g == sum_eval (map to_pwl grads) (hd 0 (T0 grads)) /\
+  g_last g == sum_eval (map to_pwl grads) (last (T0 grads) 0) /\
+  g_dur g == last (T0 grads) 0.
+Proof.
+  intros H Hok. destruct (add_gradients_ext_inv _ _ _ _ _ H) as (mg' & ms' & Hm).
+  destruct (make_ext_trap_fields _ _ _ _ _ Hm) as (Hne & Hf & Hl & Hd).
+  set (p := ext_sum grads) in *.
+  assert (Ht : times p = T0 grads).
+  { unfold p, ext_sum. rewrite times_psum_on. apply (ext_times_T0 s). exact Hok. }
+  assert (Hs : sorted_strict (times p)) by (rewrite Ht; apply sort_uniq_sorted).
+  assert (Hev : forall t, eval p t == sum_eval (map to_pwl grads) t) by (apply (ext_sum_eval s); exact Hok).
+  rewrite Hf, Hl, Hd. rewrite <- Ht, <- tfirst_times, <- tlast_times.
+  split; [|split; [|reflexivity]].
+  - rewrite <- (eval_at_first p Hs). apply Hev.
+  - rewrite <- (eval_at_last p Hs). apply Hev.
+Qed.
+
+(* equal-timing path: every input has the duration of the result; first = last = 0 *)
+Theorem add_trap_duration_first_last s mg ms grads g :
+  add_gradients s mg ms grads = OK (P_trap, g) -> (forall x, In x grads -> WF x) ->
+  g_first g = 0 /\ g_last g = 0 /\ forall x, In x grads -> g_dur x == g_dur g /\ g_first x = 0 /\ g_last x = 0.
+Proof.
+  intros H Hwf. destruct (add_gradients_trap_inv _ _ _ _ _ H) as (t0 & rest & mg' & ms' & -> & Hst & Hm).
+  destruct (Hwf (GTrap t0) (or_introl eq_refl)) as (Hr & Hf & Hfa).
+  unfold make_trap_amp in Hm.
+  case_eqb (tr_rise t0) 0 E1; [lra|]. case_eqb (tr_fall t0) 0 E2; [lra|].
+  destruct (Qgtb _ _); [discriminate|]. destruct (Qgtb _ _); [discriminate|].
+  destruct (Qgtb _ _); [discriminate|]. injection Hm as <-.
+  split; [reflexivity|]. split; [reflexivity|].
+  intros x Hx. unfold same_timing in Hst. rewrite forallb_forall in Hst. specialize (Hst x Hx).
+  destruct x as [tr|e]; [|discriminate].
+  apply andb_true_iff in Hst. destruct Hst as [Hg H4]. apply andb_true_iff in Hg. destruct Hg as [Hg H3].
+  apply andb_true_iff in Hg. destruct Hg as [H1 H2].
+  apply Qeq_bool_iff in H1, H2, H3, H4.
+  cbn [g_dur g_first g_last tr_delay tr_rise tr_flat tr_fall]. split; [lra|split; reflexivity].
+Qed.
